@@ -7,6 +7,7 @@ import (
 	"flag"
 	"fmt"
 	"os"
+	"os/exec"
 	"path/filepath"
 	"runtime/debug"
 	"sort"
@@ -90,6 +91,9 @@ func main() {
 			ctx := rules.NewCtx(p, rep, *tier)
 			spec.Run(ctx)
 		}
+		if *tier == "thorough" && os.Getenv("NSCHECK_NO_SELFTEST") == "" {
+			rep.Extra["selftest"] = selfTest(*prop, *repo, *verif)
+		}
 		rep.Explanation = spec.Explanation
 		rep.NotDecided = spec.NotDecided
 		rep.Assumptions = spec.Assumptions
@@ -104,6 +108,95 @@ func main() {
 		}
 	}
 	os.Exit(code)
+}
+
+// selfTest (thorough tier only, informational): every seeded change written for this
+// property (/verif/seeded/<id>/patch.diff) is applied to a scratch copy of the repository
+// and the same quick check is run on the copy: it must report a violation there. The
+// result is recorded in the evidence; it never changes the verdict on /repo itself (a patch
+// that no longer applies to an edited tree is skipped).
+func selfTest(prop, repo, verif string) []map[string]any {
+	var out []map[string]any
+	dirs, _ := filepath.Glob(filepath.Join(verif, "seeded", "*"))
+	sort.Strings(dirs)
+	exe, _ := os.Executable()
+	for _, d := range dirs {
+		b, err := os.ReadFile(filepath.Join(d, "meta.json"))
+		if err != nil {
+			continue
+		}
+		var meta struct {
+			ID     string `json:"id"`
+			Breaks string `json:"breaks_property"`
+		}
+		if json.Unmarshal(b, &meta) != nil || meta.Breaks != prop {
+			continue
+		}
+		res := map[string]any{"seeded": meta.ID}
+		tmp, err := os.MkdirTemp("", "nscheck-selftest-")
+		if err != nil {
+			res["result"] = "skipped: " + err.Error()
+			out = append(out, res)
+			continue
+		}
+		func() {
+			defer os.RemoveAll(tmp)
+			cp := exec.Command("rsync", "-a", "--exclude", ".git", repo+"/", tmp+"/repo/")
+			if o, err := cp.CombinedOutput(); err != nil {
+				res["result"] = "skipped: copy failed: " + string(o)
+				return
+			}
+			ap := exec.Command("git", "apply", filepath.Join(d, "patch.diff"))
+			ap.Dir = tmp + "/repo"
+			if o, err := ap.CombinedOutput(); err != nil {
+				res["result"] = "skipped: patch does not apply to the current tree (" + firstLine(string(o)) + ")"
+				return
+			}
+			os.MkdirAll(tmp+"/verif", 0o755)
+			if kf, err := os.ReadFile(filepath.Join(verif, "known_findings.json")); err == nil {
+				os.WriteFile(tmp+"/verif/known_findings.json", kf, 0o644)
+			}
+			run := exec.Command(exe, "-prop", prop, "-tier", "quick", "-repo", tmp+"/repo", "-verif", tmp+"/verif")
+			run.Env = append(os.Environ(), "NSCHECK_NO_SELFTEST=1")
+			o, err := run.CombinedOutput()
+			if err != nil && run.ProcessState != nil && run.ProcessState.ExitCode() == 1 {
+				res["result"] = "fired"
+				for _, ln := range splitLines(string(o)) {
+					if len(ln) > 2 && (ln[:2] == "  ") {
+						res["first_report"] = ln
+						break
+					}
+				}
+			} else {
+				res["result"] = "MISSED: the check stays silent on this seeded change"
+			}
+		}()
+		out = append(out, res)
+	}
+	return out
+}
+
+func firstLine(s string) string {
+	for i, c := range s {
+		if c == '\n' {
+			return s[:i]
+		}
+	}
+	return s
+}
+
+func splitLines(s string) []string {
+	var out []string
+	cur := ""
+	for _, c := range s {
+		if c == '\n' {
+			out = append(out, cur)
+			cur = ""
+		} else {
+			cur += string(c)
+		}
+	}
+	return append(out, cur)
 }
 
 func isFlagSet(name string) bool {
